@@ -108,7 +108,8 @@ fn companion_of(cfg: &Cfg, threshold: u64) -> Arc<hotspot::Rule> {
         resource: RES.into(),
         metric_type: hotspot::MetricType::QPS,
         control_strategy: hotspot::ControlStrategy::Reject,
-        param_index: 1,
+        // (a positive index and a key are mutually exclusive: a keyed companion has index 0)
+        param_index: if cfg.keyed { 0 } else { 1 },
         param_key: if cfg.keyed { "k2".into() } else { String::new() },
         threshold,
         burst_count: cfg.b,
@@ -192,6 +193,13 @@ impl Subject for C06 {
             _ => {}
         }
         hotspot::load_rules(rule_set(&self.cfg, 0, false));
+        // vacuity guard: every rule of the configuration must really be in force
+        let want = if self.cfg.companion { 2 } else { 1 };
+        let got = hotspot::get_rules_of_resource(&RES.to_string()).len();
+        if got != want {
+            eprintln!("MACHINERY: C06 configuration {:?}: {} of {} harness rules are in force (one was refused as invalid?)", self.cfg, got, want);
+            std::process::exit(2);
+        }
         self.buckets.clear();
         self.hist.clear();
         self.refills = 0;
@@ -355,7 +363,9 @@ pub fn configs(thorough: bool) -> Vec<Cfg> {
                         let base = Cfg { q, b, d, overrides: overrides.clone(), keyed, phase: [0, 1, 499, 999][(k % 4) as usize], companion: false, retuned: 0, script_capacity: None };
                         v.push(base.clone());
                         // variants: a companion rule sharing the value strings, and two-step loads
-                        let variant = if thorough { Some(k % 4) } else { Some((k / 5) % 4) };
+                        // the companion + two-step variant (0) is given to every second configuration
+                        // (a table of odd length: k / 5 and the keyed flag alternate together, an even length would alias)
+                        let variant = if thorough { Some([0, 1, 0, 2, 3][(k % 5) as usize]) } else { Some([0, 1, 0, 2, 3][((k / 5) % 5) as usize]) };
                         match variant {
                             Some(3) => v.push(Cfg { companion: false, retuned: 3, ..base.clone() }),
                             Some(0) => v.push(Cfg { companion: true, retuned: 1, ..base.clone() }),
